@@ -172,9 +172,24 @@ class Tree:
       base = os.path.join(tmp, 'c16pkg')
       os.makedirs(base, exist_ok=True)
       open(os.path.join(base, '__init__.py'), 'w').close()
+    searchrel = bool(config.get('searchrel')) and not config.get('pkgrel')
+    if searchrel:
+      # the files live in a registered search location and are spelled by their bare names; a
+      # *later* location holds a harmless file of the same name for each of them, which must never
+      # be looked at (the first location has the file; what happens inside it is final)
+      base = os.path.join(tmp, 'c16loc1')
+      decoys = os.path.join(tmp, 'c16loc2')
+      os.makedirs(base, exist_ok=True)
+      os.makedirs(decoys, exist_ok=True)
+      for i in range(len(self.files)):
+        with open(os.path.join(decoys, f'f{i}.gin'), 'w') as fh:
+          fh.write("fa.p = 'copy in a later search location'\n")
+      gin.add_config_file_search_path(base)
+      gin.add_config_file_search_path(decoys)
     self.names = [None if (i == 0 and config['root_as'] in ('string', 'list', 'tuple'))
                   else os.path.join(base, f'f{i}.gin') for i in range(len(self.files))]
-    self.refs = [n and (f'c16pkg/f{i}.gin' if config.get('pkgrel') else n)
+    self.refs = [n and (f'c16pkg/f{i}.gin' if config.get('pkgrel') else
+                        f'f{i}.gin' if searchrel else n)
                  for i, n in enumerate(self.names)]
     self.parent = {}
     for i, f in enumerate(self.files):
@@ -717,5 +732,6 @@ def strategy(draw):
   return {'config': {'files': files, 'root_as': draw(st.sampled_from(['string', 'string', 'file', 'file', 'list', 'tuple'])),
                      'prior': prior, 'outer_scope': draw(st.sampled_from(['', '', 'outer', 'o/p'])),
                      'locked': locked, 'tape': draw(S.tapes(20)),
-                     'pkgrel': draw(st.integers(0, 3)) == 0},
+                     'pkgrel': draw(st.integers(0, 3)) == 0,
+                     'searchrel': draw(st.integers(0, 2)) == 0},
           'variant': draw(st.integers(0, 7))}
